@@ -180,22 +180,36 @@ class RangeFlow:
                     for x in t.elts:
                         assign(x, [frozenset().union(*ks)], st)
 
-        def scan(node: ast.AST, st: dict) -> None:
+        def scan(node: ast.AST, st: dict, int_known: frozenset = frozenset()) -> None:
             """Record copies inside one statement/test (IfExp branches see their refinement)."""
             if isinstance(node, (ast.FunctionDef, ast.AsyncFunctionDef, ast.Lambda, ast.ClassDef)):
                 return
             if isinstance(node, ast.IfExp):
-                scan(node.test, st)
+                scan(node.test, st, int_known)
                 t, f = dict(st), dict(st)
                 self.refine(node.test, t, True)
                 self.refine(node.test, f, False)
-                scan(node.body, t)
-                scan(node.orelse, f)
+                scan(node.body, t, int_known)
+                scan(node.orelse, f, int_known)
                 return
             if isinstance(node, ast.Call) and isinstance(node.func, ast.Name) and node.func.id in COPY and node.args:
                 ks = self.kinds(node.args[0], st)[0]
                 if ks & {R, RI}:
                     self.copies.append(Copy(m, node, ast.unparse(node.args[0]), ks))
+            if isinstance(node, ast.BoolOp) and isinstance(node.op, ast.And):
+                # `isinstance(x, int) and x in r`: the later operands see the earlier tests
+                known = set(int_known)
+                for v in node.values:
+                    scan(v, st, frozenset(known))
+                    if isinstance(v, ast.Call) and isinstance(v.func, ast.Name) and v.func.id == "isinstance" and len(v.args) == 2 and isinstance(v.args[0], ast.Name) and ast.unparse(v.args[1]) in ("int", "(int,)"):
+                        known.add(v.args[0].id)
+                return
+            if isinstance(node, ast.Compare) and len(node.ops) == 1 and isinstance(node.ops[0], (ast.In, ast.NotIn)):
+                # membership of a range is constant time for an int only: any other operand is compared with every element
+                ks = self.kinds(node.comparators[0], st)[0]
+                lhs = node.left
+                if R in ks and not (isinstance(lhs, ast.Name) and lhs.id in int_known) and not (isinstance(lhs, ast.Constant) and isinstance(lhs.value, int)):
+                    self.copies.append(Copy(m, node, ast.unparse(node.comparators[0]), frozenset({R})))
             if isinstance(node, (ast.List, ast.Tuple, ast.Set)):
                 for x in node.elts:
                     if isinstance(x, ast.Starred):
@@ -215,7 +229,7 @@ class RangeFlow:
             if isinstance(node, ast.Call) and self._callee(node) is not None:
                 self._bind_args(self._callee(node), node, st)  # type: ignore[arg-type]
             for ch in ast.iter_child_nodes(node):
-                scan(ch, st)
+                scan(ch, st, int_known)
 
         rets: list[list[frozenset]] = []
 
